@@ -100,8 +100,8 @@ func calculateCommitment[T any](
 	runOnTempTrie onTempTrieFunc,
 	process processFunc[T],
 ) (felt.Felt, error) {
-	var commitment *felt.Felt
-	return *commitment, runOnTempTrie(commitmentTrieHeight, func(trie Trie) error {
+	var commitment felt.Felt
+	err := runOnTempTrie(commitmentTrieHeight, func(trie Trie) error {
 		numWorkers := min(runtime.GOMAXPROCS(0), len(items))
 		results := make([]felt.Felt, len(items))
 		var wg sync.WaitGroup
@@ -135,8 +135,9 @@ func calculateCommitment[T any](
 		if err != nil {
 			return err
 		}
-		commitment = &root
+		commitment = root
 
 		return nil
 	})
+	return commitment, err
 }
